@@ -49,7 +49,7 @@ def validate(c, sessions, label, max_fail=10):
 
 def run(c):
     c.tlc_model("MC_Fidelity", "MC_Fidelity.cfg", timeout=600, label="append / commit in chunks, 2 authors, <= 6 operations")
-    n = 45 if c.tier == "quick" else 3000
+    n = 240 if c.tier == "quick" else 6000
     out = os.path.join(c.scratch, "fid.ndjson")
     c.vh(["fidelity", out, n], timeout=3000)
     lines = [l.rstrip("\n") for l in open(out)]
